@@ -62,8 +62,8 @@ Proof.
 Qed.
 Print Assumptions C22_enum_default_index_refuted.
 
-(* 3. with a VIRTUAL generated column SHOW CREATE TABLE prints no CHECK constraint at all (mirrored by [shown_checks]):
-      the check is lost by the round trip.  Witness: (a INT, e INT AS (a) VIRTUAL, CONSTRAINT zc CHECK (a)). *)
+(* 3. with a VIRTUAL generated column SHOW CREATE TABLE prints no CHECK constraint and no table COMMENT (mirrored by
+      [shown_checks] / [shown_comment]): they are lost by the round trip.  Witness: (a INT, e INT AS (a) VIRTUAL, CONSTRAINT zc CHECK (a)). *)
 Definition virtual_check_witness : table :=
   mktable false [116]
     [mkcol [97] (TyInt IInt false) true false None None None [];
